@@ -71,8 +71,11 @@ def kill_points_restore(repo, max_ops=30):
 def _battery(S, r, o):
     a = scenarios.kill_points_purge(S.interp.repo)
     b = kill_points_restore(S.interp.repo)
-    return {'confirmed': a['confirmed'] or b['confirmed'],
-            'purge': a, 'restore': b}
+    c = scenarios.put_xdev_battery(S.interp.repo, 'restore')
+    return {'confirmed': a['confirmed'] or b['confirmed'] or c['confirmed'],
+            'problems': (a.get('problems', []) + b.get('problems', []) +
+                         c.get('problems', []))[:12],
+            'purge': a, 'restore': b, 'cross_device_restore': c}
 
 
 REPLAYERS = {'': _battery}
